@@ -579,8 +579,16 @@ type CycleReport struct {
 	FailedCreate int   `json:"failed_creates"`
 }
 
-func cycles(n int, failEvery int) CycleReport {
+// base: 0 = every scope is created from context.Background(); 1 = from one long-lived cancellable context of the
+// application that nobody cancels while the cycles run (a server's base context)
+func cycles(n int, failEvery int, base int) CycleReport {
 	rep := CycleReport{N: n}
+	appCtx, appCancel := context.WithCancel(context.Background())
+	defer appCancel()
+	baseCtx := context.Background()
+	if base == 1 {
+		baseCtx = appCtx
+	}
 	var created, closed int64
 	coll := godi.NewCollection()
 	coll.AddSingleton(func() *sSingleton { return &sSingleton{} })
@@ -616,7 +624,7 @@ func cycles(n int, failEvery int) CycleReport {
 		if i == n/2 {
 			rep.HeapKBHalf = heap()
 		}
-		sc, err := p.CreateScope(context.Background())
+		sc, err := p.CreateScope(baseCtx)
 		if err != nil {
 			rep.FailedCreate++
 			// the context derived for the scope that could not be created must not stay alive
@@ -669,7 +677,19 @@ func cmdConc(args []string) {
 	stressFor := fs.Duration("stress", 0, "")
 	cyc := fs.Int("cycles", 0, "")
 	probe := fs.Bool("probe", false, "")
+	oprobe := fs.Bool("orderprobe", false, "")
+	vprobe := fs.Bool("overlapprobe", false, "")
 	fs.Parse(args)
+	if *vprobe {
+		b, _ := json.Marshal(overlapProbe())
+		fmt.Println(string(b))
+		return
+	}
+	if *oprobe {
+		b, _ := json.Marshal(orderProbe())
+		fmt.Println(string(b))
+		return
+	}
 	if *probe {
 		b, _ := json.Marshal(isolationProbe())
 		fmt.Println(string(b))
@@ -681,7 +701,7 @@ func cmdConc(args []string) {
 		return
 	}
 	if *cyc > 0 {
-		reps := []CycleReport{cycles(*cyc, 0), cycles(*cyc, 7)}
+		reps := []CycleReport{cycles(*cyc, 0, 0), cycles(*cyc, 7, 0), cycles(*cyc, 5, 1)}
 		b, _ := json.Marshal(reps)
 		fmt.Println(string(b))
 		return
